@@ -88,6 +88,7 @@ class X86Model(object):
         self._addop_facts()
         self._rows()
         self._expand()
+        self._validate_mirror()
         self._mmx_names()
 
     # -- names that depend on the built table (mnemo_mmx_hash loop at module level), recomputed statically
@@ -128,30 +129,22 @@ class X86Model(object):
             raise AnalysisError('addop signature changed: %s' % params)
         ev = Evaluator(self.env)
         self.base_keys = None
-        src = {}
+        # the modifier keys every row starts with: the value `base_modif` is first bound to, evaluated (a dict with every key mapped to None)
         for n in ast.walk(fn):
-            if isinstance(n, ast.Assign) and u(n.targets[0]) == 'base_modif':
-                for c in ast.walk(n.value):
-                    if isinstance(c, ast.ListComp) and isinstance(c.generators[0].iter, ast.List):
-                        self.base_keys = ev.ev(c.generators[0].iter)
+            if isinstance(n, ast.Assign) and u(n.targets[0]) == 'base_modif' and self.base_keys is None:
+                try:
+                    v = ev.ev(n.value)
+                except NotConst:
+                    v = None
+                if isinstance(v, dict) and v and all(x is None for x in v.values()):
+                    self.base_keys = list(v.keys())
+                else:
+                    for c in ast.walk(n.value):
+                        if isinstance(c, ast.ListComp) and isinstance(c.generators[0].iter, ast.List):
+                            self.base_keys = ev.ev(c.generators[0].iter)
         if not self.base_keys:
             raise AnalysisError('addop: modifier key list (base_modif) not found')
-        text = u(fn)
-        for needle, what in [
-            ('prop_dict.update(sem)', 'sem merged into prop_dict'),
-            ('base_modif.update(modifs)', 'modifiers default True'),
-            ('base_modif.update(prop_dict)', 'forced properties'),
-            ('base_mnemo[0][0][modif_desc[se][0]] ^= 1 << modif_desc[se][1]', 'se pre-toggle'),
-            ('n_m[modif] = not n_m[modif]', 'modifier toggle'),
-            ('opc[modif_desc[modif][0]] ^= 1 << modif_desc[modif][1]', 'opcode bit toggle'),
-            ('if n_m[se] and n_m[w8]', 'se/w8 exclusion'),
-            ('opc += [afs]', '/digit appended'),
-            ("if name == 'finit'", 'finit special case'),
-            ('for cond_suffix in cond_list[i_k]', 'cc naming'),
-            ('mask_opc_to_i(mask, opc[-1])', 'key expansion'),
-        ]:
-            if needle not in text:
-                raise AnalysisError('addop no longer contains the statement the table model mirrors (%s): %s' % (what, needle))
+        # (that the expansion below mirrors addop is checked by _validate_mirror: addop itself is interpreted on probe rows and must fill the same cells)
         # afs kind -> mask, from the if/elif chain
         self.afs_mask = {}
         for n in ast.walk(fn):
@@ -242,6 +235,25 @@ class X86Model(object):
         self.clashes = []      # (path, old cell, new row)
         self.variants = []     # every (row, opc list, modifs) variant
         for row in self.rows:
+            for kind_, payload in self._row_entries(row):
+                if kind_ == 'finit':
+                    opc, nm = payload
+                    self.lookup['finit'] = [(opc, nm, row)]
+                elif kind_ == 'variant':
+                    opc, nm = payload
+                    self.variants.append((row, opc, nm))
+                elif kind_ == 'lookup':
+                    name, opc, nm = payload
+                    self.lookup.setdefault(name, []).append((opc, nm, row))
+                else:
+                    path, name, nm, opc, check = payload
+                    self._insert(path, name, nm, row, opc, check=check)
+
+    def _row_entries(self, row):
+        """What addop does with one row, as events: ('finit', (opc, modifs)) | ('variant', (opc, modifs)) | ('cell', (path, name, modifs, opc, check)) | ('lookup', (name, opc, modifs))."""
+        E = self.env
+        se, w8 = E['se'], E['w8']
+        if True:
             prop = dict(row.prop)
             prop.update(row.sem)
             modifs = dict((k, True) for k in row.modif_desc)
@@ -271,9 +283,9 @@ class X86Model(object):
                 if isinstance(row.afs, int):
                     opc = opc + [row.afs]
                 if row.name == 'finit':
-                    self.lookup['finit'] = [(opc, nm, row)]
+                    yield 'finit', (opc, nm)
                     break
-                self.variants.append((row, opc, nm))
+                yield 'variant', (opc, nm)
                 prefix = tuple(opc[:-1])
                 keys = [i for i in range(0x100) if (i & mask) == opc[-1]]
                 if row.afs == E['cond']:
@@ -283,12 +295,12 @@ class X86Model(object):
                         opc_t[-1] |= i_k
                         for suf in E['cond_list'][i_k]:
                             nm_name = row.name + suf
-                            self._insert(prefix + (k,), nm_name, nm, row, opc_t, check=False)
-                            self.lookup.setdefault(nm_name, []).append((opc_t, nm, row))
+                            yield 'cell', (prefix + (k,), nm_name, nm, opc_t, False)
+                            yield 'lookup', (nm_name, opc_t, nm)
                 else:
                     for k in keys:
-                        self._insert(prefix + (k,), row.name, nm, row, opc, check=True)
-                    self.lookup.setdefault(row.name, []).append((opc, nm, row))
+                        yield 'cell', (prefix + (k,), row.name, nm, opc, True)
+                    yield 'lookup', (row.name, opc, nm)
 
     def _insert(self, path, name, modifs, row, opc, check):
         # a leaf below an existing leaf / a leaf over a subtable
@@ -307,6 +319,71 @@ class X86Model(object):
         for plen in range(1, len(path)):
             self.internal.add(path[:plen])
         self.cells[path] = Cell(path, name, modifs, row, opc)
+
+    # -- the mirror above against addop itself
+    def _validate_mirror(self):
+        """x86allmncs.addop is interpreted from its source on probe rows (one per combination of afs kind, modifier set and opcode length that the table uses) with an empty table;
+        the cells it fills (path -> name, modifiers, opcode bytes) and the names it registers must be those the mirror computes for that row alone."""
+        from .consteval import class_obj, Native, PyRaise
+        import copy as _copy
+        E = self.env
+        addop = self.arch.method('x86allmncs', 'addop')
+        log = Obj('log')
+        for k_ in ('debug', 'error', 'info', 'warning', 'warn'):
+            setattr(log, k_, Native(lambda *a: None))
+
+        def mk_mnemonic(name, opc, afs, rm, modifs, modifs_orig, sem):
+            o = Obj('mnemonic')
+            o.name, o.opc, o.afs, o.rm, o.modifs, o.modifs_orig, o.sem = name, list(opc), afs, rm, dict(modifs), modifs_orig, sem
+            return o
+        scope = dict(self.env)
+        for fname_, fnode_ in self.arch.funcs.items():
+            scope.setdefault(fname_, fnode_)
+        scope.update({'log': log, 'mnemonic': Native(mk_mnemonic), 'x86_afs': self.afs})
+        probes, seen = [], set()
+        for row in self.rows:
+            kind = 'digit' if isinstance(row.afs, int) else row.afs
+            k = (kind, tuple(sorted(str(x) for x in row.modif_desc)), len(row.opc), row.name == 'finit')
+            if k not in seen:
+                seen.add(k)
+                probes.append(row)
+        n_cells = 0
+        for row in probes:
+            me = class_obj(self.arch, 'x86allmncs', 'self')
+            me.db_mnemo = [None for _ in range(0x100)]
+            me.mnemo_lookup = {}
+            try:
+                Evaluator(scope).call_user(addop, [me, row.name, list(row.opc), row.afs, list(row.rm), _copy.deepcopy(row.modif_desc), dict(row.prop), dict(row.sem)])
+            except PyRaise as e:
+                raise AnalysisError('addop, interpreted on the row %s alone, raises %s' % (row.key(), e.exc_name))
+            except NotConst as e:
+                raise AnalysisError('x86allmncs.addop is outside the statically evaluable subset (row %s): %s' % (row.key(), e))
+            got = {}
+
+            def walk(tab, path):
+                for i, x in enumerate(tab):
+                    if x is None:
+                        continue
+                    if isinstance(x, list):
+                        walk(x, path + (i,))
+                    else:
+                        got[path + (i,)] = (x.name, tuple(sorted((str(a), str(b)) for a, b in x.modifs.items() if b is not None)), tuple(x.opc))
+            walk(me.db_mnemo, ())
+            want, names = {}, set()
+            for kind_, payload in self._row_entries(row):
+                if kind_ == 'finit':
+                    names.add('finit')
+                elif kind_ == 'cell':
+                    path, name, nm, opc, check = payload
+                    want[path] = (name, tuple(sorted((str(a), str(b)) for a, b in nm.items() if b is not None)), tuple(opc))
+                    names.add(name)
+            if got != want or set(me.mnemo_lookup.keys()) != names:
+                diff = sorted(set(got.items()) ^ set(want.items()))[:2]
+                raise AnalysisError('the table model no longer mirrors x86allmncs.addop: for the row %s alone addop fills %d cells and registers %s, the model computes %d cells and %s; e.g. %s '
+                                    '(addop was changed in a way the row expansion of sa/x86table.py does not follow: re-read addop and extend the model)'
+                                    % (row.key(), len(got), sorted(me.mnemo_lookup.keys())[:4], len(want), sorted(names)[:4], diff))
+            n_cells += len(got)
+        self.mirror_validated = (len(probes), n_cells)
 
     # -- ModRM / SIB tables built by init_pre_modrm, evaluated statically
     def modrm_tables(self):
